@@ -68,7 +68,7 @@ func c19Scenario(p c19Params, bound int) vh.SScenario {
 			if p.Ticks > 0 {
 				ths = append(ths, s.Spawn("ticker", func() {
 					for i := 0; i < p.Ticks; i++ {
-						if tk := s.TickerByPeriod(5 * time.Second); tk != nil {
+						if tk := s.TickerByPeriod(kitProbePeriod); tk != nil {
 							tk.Fire()
 						}
 					}
@@ -122,7 +122,7 @@ func c19Scenario(p c19Params, bound int) vh.SScenario {
 				k.lb.Stop()
 				// and a late tick must not probe any more
 				before := totalProbes()
-				if tk := s.TickerByPeriod(5 * time.Second); tk != nil {
+				if tk := s.TickerByPeriod(kitProbePeriod); tk != nil {
 					tk.Fire()
 				}
 				s.Settle()
